@@ -3,7 +3,7 @@
    Model: Gossip/Local.v, Apply.v, World.v (pkg/gossip/state.go, listener.go, gossip.go). *)
 From Coq Require Import List String NArith ZArith Bool Lia.
 From Piko Require Import Base.Maps Base.Strs Gossip.Types Gossip.Local Gossip.Apply Gossip.Codec Gossip.World.
-From Piko Require Import GossipP.SortP GossipP.LocalP GossipP.Valid GossipP.ApplyValid GossipP.ApplyP GossipP.WorldP.
+From Piko Require Import GossipP.SortP GossipP.LocalP GossipP.Valid GossipP.ApplyValid GossipP.ApplyP GossipP.WorldP GossipP.WatchP GossipP.MemberP GossipP.WorldInv.
 Import ListNotations.
 Open Scope string_scope. Open Scope list_scope. Open Scope N_scope.
 
@@ -82,9 +82,53 @@ Proof.
   vm_compute in H. specialize (H ltac:(discriminate)). discriminate.
 Qed.
 
-(* PARTIAL (named): the lift of these lemmas to "for every op list of the world model, every pair observer/owner:
-   Valid (view o x) (own x) (log x)" (C02_world_invariant, with the packet invariant of DESIGN.md appendix A) is in
-   progress; until it is closed the world-level statement is carried by the per-step monitor and the correspondence. *)
+(* THE property over whole clusters: for every cluster (any number of nodes with distinct ids and addresses), every
+   owner x and every world reachable from the initial one by ANY interleaving of local writes/deletes/leave/
+   compactions on any node, digest sends with any entry order and any maximum packet size, delivery, duplication
+   and loss of packets in any order, liveness evaluations, join and leave streams (relay through third parties
+   included), as long as versions stay below 2^64 and no node expires another (finding F3) and no packet is forged
+   outside the cluster: every other node's view of x is Valid with respect to x's CURRENT own state and write log. *)
+Theorem C02_world_invariant :
+  forall specs jx x xaddr w,
+  NoDup (map fst specs) -> NoDup (map snd specs) -> nth_error specs jx = Some (x, xaddr) ->
+  reach (init_world specs) w ->
+  exists cx O, nth_error (w_nodes w) jx = Some cx /\ lookup x (c_nodes cx) = Some O /\ OwnInv O (log_of w x) /\
+    forall o c V, nth_error (w_nodes w) o = Some c -> o <> jx -> lookup x (c_nodes c) = Some V -> Valid V O (log_of w x).
+Proof. intros specs jx x xaddr w H1 H2 H3 Hr. exact (views_valid specs H1 H2 jx x xaddr H3 w Hr). Qed.
+
+(* corollary: whoever has caught up with x's version holds exactly x's entries (keys, values, tombstones) *)
+Theorem C02_world_caught_up :
+  forall specs jx x xaddr w,
+  NoDup (map fst specs) -> NoDup (map snd specs) -> nth_error specs jx = Some (x, xaddr) ->
+  reach (init_world specs) w ->
+  forall o c V cx O, nth_error (w_nodes w) o = Some c -> o <> jx -> lookup x (c_nodes c) = Some V ->
+  nth_error (w_nodes w) jx = Some cx -> lookup x (c_nodes cx) = Some O -> n_ver V = n_ver O ->
+  forall k, lookup k (n_ents V) = lookup k (n_ents O).
+Proof.
+  intros specs jx x xaddr w H1 H2 H3 Hr o c V cx O Hc Hne HV Hcx HO Heq.
+  destruct (views_valid specs H1 H2 jx x xaddr H3 w Hr) as [cx' [O' [A [B [C D]]]]].
+  assert (cx' = cx) by congruence. subst cx'. assert (O' = O) by congruence. subst O'.
+  apply (caught_up_exact O V (log_of w x) C (D o c V Hc Hne HV) Heq).
+Qed.
+
+(* "the version it reports for any node never moves backwards": for ANY received digest, delta (honest or not)
+   and any liveness evaluation, a known node stays known and its reported version does not decrease *)
+Theorem C02_version_never_backwards :
+  forall c o id, known c id -> (forall t, o <> RExpire t) ->
+  known (fst (rstep c o)) id /\ ver_of c id <= ver_of (fst (rstep c o)) id.
+Proof. exact version_never_backwards. Qed.
+
+(* non-vacuity: a 3-node history with relay, truncation, duplication and a compaction is reachable *)
+Example C02_reachable_example :
+  let specs := [("a", "10.0.0.1:7000"); ("b", "10.0.0.2:7000"); ("c", "10.0.0.3:7000")] in
+  let ops := [WLocal 1 (LUpsert "k" "v"); WLocal 1 (LUpsert "j" "w"); WJoin 0 1 [] []; WLocal 1 (LDelete "k");
+              WLocal 1 (LCompact 1); WSend 2 0 ["c"] 1400; WDeliver 0 true 120 [] ["a"; "b"; "c"]; WDeliver 0 false 1400 [] ["a"; "c"; "b"];
+              WSend 0 1 ["b"; "a"; "c"] 1400; WDeliver 3 false 90 [] ["b"; "a"; "c"]] in
+  Forall (allowed) ops /\ List.length (w_net (wrun (init_world specs) ops)) = 4%nat.
+Proof.
+  cbn zeta. split; [|vm_compute; reflexivity].
+  repeat (apply Forall_cons; [vm_compute; try reflexivity; try exact I; try discriminate|]). apply Forall_nil.
+Qed.
 
 Print Assumptions C02_owner_step_preserves_valid.
 Print Assumptions C02_apply_prefix_valid.
@@ -93,3 +137,7 @@ Print Assumptions C02_caught_up_exact.
 Print Assumptions C02_own_state_local_only.
 Print Assumptions C02_own_state_liveness_expiry.
 Print Assumptions C02_refuted_with_expiry.
+Print Assumptions C02_world_invariant.
+Print Assumptions C02_world_caught_up.
+Print Assumptions C02_version_never_backwards.
+Print Assumptions C02_reachable_example.
